@@ -89,6 +89,13 @@ func BuildOverlay(repoDir, verifDir string, withTests bool, dirs ...string) (map
 			ov[filepath.Join(rd, e.Name())] = b
 		}
 		ov[filepath.Join(rd, "zz_verif_rt.go")] = []byte(strings.Replace(string(tmpl), "PKGNAME", pkgNames[d], 1))
+		if d == "arch" {
+			src, err := oracleGoSource(verifDir)
+			if err != nil {
+				return nil, err
+			}
+			ov[filepath.Join(rd, "zz_verif_oracle.go")] = []byte(src)
+		}
 		if withTests {
 			ov[filepath.Join(rd, "zz_verif_replay_test.go")] = []byte(strings.Replace(replayTestSrc, "PKGNAME", pkgNames[d], 1))
 			// boundary files: the current source with its syscall selectors rewritten to the stubs
@@ -102,6 +109,91 @@ func BuildOverlay(repoDir, verifDir string, withTests bool, dirs ...string) (map
 		}
 	}
 	return ov, nil
+}
+
+// oracleGoSource renders /verif/oracle/*.json as Go data for the arch harness.
+func oracleGoSource(verifDir string) (string, error) {
+	var sc struct {
+		Tables map[string]map[string]map[string]int `json:"tables"`
+	}
+	b, err := os.ReadFile(filepath.Join(verifDir, "oracle/syscalls.json"))
+	if err != nil {
+		return "", err
+	}
+	if err := json.Unmarshal(b, &sc); err != nil {
+		return "", err
+	}
+	var au struct {
+		AuditArch map[string]uint32 `json:"audit_arch"`
+	}
+	b, err = os.ReadFile(filepath.Join(verifDir, "oracle/audit_arch.json"))
+	if err != nil {
+		return "", err
+	}
+	if err := json.Unmarshal(b, &au); err != nil {
+		return "", err
+	}
+	var sb strings.Builder
+	sb.WriteString("package arch\n\n// generated from /verif/oracle/*.json at run time\n\n")
+	sb.WriteString("func vOracleTable(table, source string) map[string]int {\n\tswitch table + \"/\" + source {\n")
+	var keys []string
+	for a, srcs := range sc.Tables {
+		for s := range srcs {
+			keys = append(keys, a+"/"+s)
+		}
+	}
+	sort.Strings(keys)
+	for i, k := range keys {
+		fmt.Fprintf(&sb, "\tcase %q:\n\t\treturn vOracle%d\n", k, i)
+	}
+	sb.WriteString("\t}\n\treturn nil\n}\n\n")
+	for i, k := range keys {
+		parts := strings.SplitN(k, "/", 2)
+		tab := sc.Tables[parts[0]][parts[1]]
+		var names []string
+		for n := range tab {
+			names = append(names, n)
+		}
+		sort.Strings(names)
+		fmt.Fprintf(&sb, "var vOracle%d = map[string]int{\n", i)
+		for _, n := range names {
+			fmt.Fprintf(&sb, "\t%q: %d,\n", n, tab[n])
+		}
+		sb.WriteString("}\n\n")
+	}
+	sb.WriteString("var vAuditArch = map[string]uint32{\n")
+	var an []string
+	for n := range au.AuditArch {
+		an = append(an, n)
+	}
+	sort.Strings(an)
+	for _, n := range an {
+		fmt.Fprintf(&sb, "\t%q: %#x,\n", n, au.AuditArch[n])
+	}
+	sb.WriteString("}\n")
+	return sb.String(), nil
+}
+
+// OracleSources lists the (table, source) pairs of the vendored oracle.
+func OracleSources(verifDir string) ([][2]string, error) {
+	var sc struct {
+		Tables map[string]map[string]map[string]int `json:"tables"`
+	}
+	b, err := os.ReadFile(filepath.Join(verifDir, "oracle/syscalls.json"))
+	if err != nil {
+		return nil, err
+	}
+	if err := json.Unmarshal(b, &sc); err != nil {
+		return nil, err
+	}
+	var out [][2]string
+	for a, srcs := range sc.Tables {
+		for s := range srcs {
+			out = append(out, [2]string{a, s})
+		}
+	}
+	sort.Slice(out, func(i, j int) bool { return out[i][0]+out[i][1] < out[j][0]+out[j][1] })
+	return out, nil
 }
 
 // boundaryFiles are compiled, for the native replay only, with their calls
@@ -240,6 +332,7 @@ type Job struct {
 	Params   map[string]interface{} `json:"params"`
 	MapOrder string                 `json:"map_order,omitempty"`
 	Weight   int                    `json:"-"` // scheduling hint: heavier jobs start first
+	Race     bool                   `json:"race,omitempty"` // native replay under the race detector
 	Open     []string               `json:"-"`
 	CoverModels bool                `json:"-"`
 }
@@ -453,6 +546,7 @@ type ReplayFile struct {
 	Values   map[string]string      `json:"values"`
 	Choices  map[string]int         `json:"choices,omitempty"`
 	MapOrder string                 `json:"map_order,omitempty"`
+	Race     bool                   `json:"race,omitempty"`
 	Expect   struct {
 		Tag   string            `json:"tag"`
 		Known string            `json:"known,omitempty"`
@@ -462,7 +556,7 @@ type ReplayFile struct {
 }
 
 func WriteReplay(dir string, job Job, v ViolationOut) (string, error) {
-	rf := ReplayFile{Property: job.Property, Harness: job.Harness, Pkg: job.Pkg, Params: job.Params, Values: v.Values, Choices: v.Choices, MapOrder: job.MapOrder}
+	rf := ReplayFile{Property: job.Property, Harness: job.Harness, Pkg: job.Pkg, Params: job.Params, Values: v.Values, Choices: v.Choices, MapOrder: job.MapOrder, Race: job.Race}
 	rf.Expect.Tag = v.Tag
 	rf.Expect.Known = v.Known
 	rf.Expect.Obs = v.Obs
@@ -533,10 +627,14 @@ func dirOfPkg(pkg string) string {
 	return ""
 }
 
-func (r *Replayer) binFor(pkg string) (string, error) {
+func (r *Replayer) binFor(pkg string, race bool) (string, error) {
 	r.mu.Lock()
 	defer r.mu.Unlock()
-	if b, ok := r.bins[pkg]; ok {
+	key := pkg
+	if race {
+		key += "+race"
+	}
+	if b, ok := r.bins[key]; ok {
 		return b, nil
 	}
 	d := dirOfPkg(pkg)
@@ -565,34 +663,45 @@ func (r *Replayer) binFor(pkg string) (string, error) {
 		return "", err
 	}
 	bin := filepath.Join(r.tmp, "replay_"+sanitize(d)+".test")
+	if race {
+		bin += ".race"
+	}
 	pd := "."
 	if d != "root" {
 		pd = "./" + d
 	}
-	cmd := exec.Command("go", "test", "-c", "-vet=off", "-overlay", ovPath, "-o", bin, pd)
-	cmd.Dir = r.repoDir
-	cmd.Env = append(os.Environ(), "GOFLAGS=-mod=mod", "GOPROXY=off", "GOSUMDB=off", "GOTOOLCHAIN=local", "GOCACHE="+filepath.Join(r.tmp, "gocache"))
-	if gc := os.Getenv("GOCACHE"); gc != "" {
-		cmd.Env = append(cmd.Env, "GOCACHE="+gc)
+	args := []string{"test", "-c", "-vet=off", "-overlay", ovPath, "-o", bin}
+	if race {
+		args = append(args, "-race")
 	}
+	cmd := exec.Command("go", append(args, pd)...)
+	cmd.Dir = r.repoDir
+	cmd.Env = append(os.Environ(), "GOFLAGS=-mod=mod", "GOPROXY=off", "GOSUMDB=off", "GOTOOLCHAIN=local")
 	out, err := cmd.CombinedOutput()
 	if err != nil {
 		return "", fmt.Errorf("native harness build failed: %v\n%s", err, out)
 	}
 	r.BuildS += time.Since(t0).Seconds()
-	r.bins[pkg] = bin
+	r.bins[key] = bin
 	return bin, nil
 }
 
 // Run replays the files (all of the same package) natively.
 func (r *Replayer) Run(pkg string, files []string, env ...string) (map[string]*NativeResult, error) {
-	bin, err := r.binFor(pkg)
-	if err != nil {
-		return nil, err
-	}
 	res := map[string]*NativeResult{}
 	// one process per file: a harness may leave process-wide state behind
 	for _, f := range files {
+		race := false
+		if b, err := os.ReadFile(f); err == nil {
+			var rf ReplayFile
+			if json.Unmarshal(b, &rf) == nil {
+				race = rf.Race
+			}
+		}
+		bin, err := r.binFor(pkg, race)
+		if err != nil {
+			return nil, err
+		}
 		cmd := exec.Command(bin, "-test.run", "^TestVerifReplay$", "-test.v", "-test.timeout", "120s")
 		cmd.Dir = r.tmp
 		cmd.Env = append(append(os.Environ(), "VERIF_REPLAY="+f), env...)
@@ -618,6 +727,11 @@ func (r *Replayer) Run(pkg string, files []string, env ...string) (map[string]*N
 				nr.Done = true
 			case strings.HasPrefix(l, "VERIF-ERROR "):
 				nr.Error = strings.TrimPrefix(l, "VERIF-ERROR ")
+			case strings.Contains(l, "WARNING: DATA RACE") || strings.Contains(l, "fatal error: concurrent map"):
+				if !nr.Failed("C13.race") {
+					nr.Fails = append(nr.Fails, "C13.race")
+				}
+				nr.Done = true
 			}
 		}
 		if !nr.Done && nr.Error == "" && !nr.Assume {
